@@ -266,7 +266,7 @@ class OscarLoader(BaseLoader):
             "xsecfac": "xsecfac",
             "proc_id_origin": "proc_id_origin",
             "proc_type_origin": "proc_type_origin",
-            "time_last_coll": "time_last_coll",
+            "time_last_coll": "t_last_coll",
             "pdg_mother1": "pdg_mother1",
             "pdg_mother2": "pdg_mother2",
             "baryon_number": "baryon_number",
